@@ -255,7 +255,10 @@ def check_use(prog: Program, res: Result, rule: str = "C17-use") -> None:
             bound = astq.bind_args(callee, c)
             for p, expr in want.items():
                 got = bound.get(p)
-                res.ob(R, got is not None and norm(got) == expr, caller.qualname, f"{callee.name}({p}={expr})",
+                if got is not None and norm(got) != expr:   # a named intermediate: the value that reaches the call
+                    got = astq.expand_at(caller.node, got, enclosing_stmt(c)) or got
+                res.ob(R, got is not None and norm(got) == expr and not (isinstance(bound.get(p), ast.Name) and expr == norm(bound.get(p)) and astq.assignments_to(caller.node, expr)),
+                       caller.qualname, f"{callee.name}({p}={expr})",
                        f"{callee.name} receives `{short(got, 40) if got is not None else 'nothing'}` for its parameter `{p}` (expected `{expr}`)",
                        f"{caller.module.relpath}:{c.lineno}")
     # 3. the order fills the connections dict
